@@ -100,10 +100,11 @@ def run_unit(unit_name, repo, workdir, canary=False):
         # function = item containing any span line; else nearest preceding `fn`
         fn = None
         props = None
+        item_idx = None
         for s in spans:
-            for it in u.items:
+            for ix, it in enumerate(u.items):
                 if it["kind"] == "fn" and it["line_lo"] <= s["line_start"] <= it["line_hi"]:
-                    fn, props = it["name"], it["props"]
+                    fn, props, item_idx = it["name"], it["props"], ix
         if fn is None:
             for k in range(min(line, len(lines)) - 1, -1, -1):
                 m = re.search(r"\bfn\s+(\w+)", lines[k])
@@ -119,7 +120,7 @@ def run_unit(unit_name, repo, workdir, canary=False):
             kind = "tool"
         out["failures"].append(dict(
             obligation="%s::%s::%s[%s]" % (unit_name, fn or "?", msg, clause[:120]),
-            function=fn, props=props, message=msg, clause=clause, line=line, kind=kind,
+            function=fn, props=props, item_idx=item_idx, message=msg, clause=clause, line=line, kind=kind,
             rendered=(d.get("rendered") or "")[:3000]))
     if not out["failures"] and vr.get("success"):
         out["status"] = "ok"
